@@ -148,7 +148,7 @@ func decodeAgainst(c *core.Ctx, b []byte, val interface{}, tm map[string]reflect
 func init() {
 	core.Register(&core.Prop{
 		ID: "C03", Level: "model_checking",
-		Rule: "For every value of the zoo enumeration (<=1 deviating position, BMP strings) the R2 denotation is rendered by the R1 reference encoder under an explorer-driven choice vector: every int/long/double form wide enough, compact or full date, every composition of short strings/binaries into chunks (incl. empty and growing chunks) and selected splits of long ones, every final-chunk form, fixed-compact / fixed-explicit / variable lists, typed or untyped lists and maps in field position, type literal or back-reference, short or long object form, class definition in place or hoisted to the front. Values with <=3 nodes get all choice combinations (bound 8), larger ones at most 2 (quick) / 3 (thorough) non-canonical choices. Each rendering is first parsed by R1 (self-check) and then decoded by the real ToObject path and compared with the original Go value. Non-trivial = at least one non-canonical choice; distinct by (value, choice vector).",
+		Rule:        "For every value of the zoo enumeration (<=1 deviating position, BMP strings) the R2 denotation is rendered by the R1 reference encoder under an explorer-driven choice vector: every int/long/double form wide enough, compact or full date, every composition of short strings/binaries into chunks (incl. empty and growing chunks) and selected splits of long ones, every final-chunk form, fixed-compact / fixed-explicit / variable lists, typed or untyped lists and maps in field position, type literal or back-reference, short or long object form, class definition in place or hoisted to the front. Values with <=3 nodes get all choice combinations (bound 8), larger ones at most 2 (quick) / 3 (thorough) non-canonical choices. Each rendering is first parsed by R1 (self-check) and then decoded by the real ToObject path and compared with the original Go value. Non-trivial = at least one non-canonical choice; distinct by (value, choice vector).",
 		Assumptions: []string{"non-final binary chunks are rendered with 0x41 (collected grammar)", "typed/untyped alternation only where the destination type is static (struct fields)", "reference encoder R1 anchored by golden vectors and self round trip"},
 		Units: func(tier string) []core.Unit {
 			var us []core.Unit
